@@ -236,14 +236,14 @@ class Output(BaseOutput):
         self.nc.variables["time"][self.local_record_count] = self.timer.nctime()
 
         if self.layout == "dense":
-            # Fill out state.alive, False for unborn particles
-            has_value = np.full(len(state), False)
-            has_value[: len(state)] = state.alive
+            # Write the whole particle axis, dead particles masked (fill value)
+            npart = len(state)
+            dead = ~state.alive
             for var in self.instance_variables:
-                # values = getattr(state, var)
-                self.nc.variables[var][self.local_record_count, has_value] = getattr(
-                    state, var
-                )[state.alive]
+                if npart > 0:
+                    self.nc.variables[var][self.local_record_count, :npart] = (
+                        np.ma.masked_array(getattr(state, var), mask=dead)
+                    )
         elif self.layout == "sparse":
             count = len(state)  # Present number of particles
             start = self.local_instance_count
@@ -256,9 +256,13 @@ class Output(BaseOutput):
         if self.lonlat:
             lon, lat = self.xy2ll(state.X, state.Y)
             if self.layout == "dense":
-                alive = state.alive
-                self.nc.variables["lon"][self.local_record_count, has_value] = lon[alive]
-                self.nc.variables["lat"][self.local_record_count, has_value] = lat[alive]
+                if npart > 0:
+                    self.nc.variables["lon"][self.local_record_count, :npart] = (
+                        np.ma.masked_array(lon, mask=dead)
+                    )
+                    self.nc.variables["lat"][self.local_record_count, :npart] = (
+                        np.ma.masked_array(lat, mask=dead)
+                    )
             elif self.layout == "sparse":
                 self.nc.variables["lon"][start:end] = lon
                 self.nc.variables["lat"][start:end] = lat
